@@ -21,3 +21,6 @@ def run(chk):
     sv.judge(chk, "C26", cases, key_of, lambda c: "%s/gap=%d" % (c["label"], c["gap_ms"]),
              lambda tr: tr[0]["released"] or tr[0]["max_live_loops"] > 0)
     sv.design(chk, "IdleRelease", ["design_short", "design_long"], {"ascoded_short": "Inv_NoTimerLost"})
+    # the DBOS stack: lifecycle lock (Lifecycle.tla) and DBOSIdleReleaseDecorator (DbosIdleRelease.tla)
+    from harness.checks import _dbos_idle
+    _dbos_idle.run_c26_part(chk)
